@@ -65,7 +65,7 @@ func verifJP(t verifStreamSink, typ types.JoinPointRunType, maxCalls uint64, tar
 	}
 	x.left = verifU64("jp.left")
 	verifAssume(x.left <= x.gas)
-	x.err = verifErr(2 * uint64(verifChoose("jp.err", 1)))
+	x.err = verifErr(uint64(verifChoose("jp.err", verifParam("jperrkinds"))))
 	x.out = verifBytes("jp.out", 1, 1)
 	t.CaptureAspectExit(typ, &types.AspectExecutionResult{Gas: x.left, Err: x.err, Ret: x.out})
 	return x
@@ -173,6 +173,27 @@ func VerifHarness_CallTracerStream(flat uint64) {
 		frames, err := flatFromNested(root, []int{}, ft(t).config.ConvertParityErrors, nil)
 		verifAssert(err == nil, "C19: flattening succeeds")
 		verifReach("flattened")
+		// every Aspect execution appears in the flat trace with its own gas used; a result is
+		// dropped only for failures other than a revert (as for ordinary calls)
+		for i, x := range execs {
+			pos := i
+			if i >= nPre {
+				pos = i + len(root.Calls)
+			}
+			found := 0
+			for k := range frames {
+				if len(frames[k].TraceAddress) == 1 && frames[k].TraceAddress[0] == pos {
+					found++
+					if x.err == nil || x.err == vm.ErrExecutionReverted {
+						verifAssert(frames[k].Result != nil && frames[k].Result.GasUsed != nil && *frames[k].Result.GasUsed == x.gas-x.left,
+							"C19: the flat trace keeps each Aspect execution's own gas used and output (also when it reverted)")
+					} else {
+						verifAssert(frames[k].Result == nil, "C19: the flat trace drops the result of an Aspect execution that failed otherwise")
+					}
+				}
+			}
+			verifAssert(found == 1, "C19: every Aspect execution appears exactly once in the flat trace")
+		}
 		// sub-trace counts equal emitted children; trace addresses unique and prefix-closed
 		for i := range frames {
 			kids := 0
